@@ -104,7 +104,7 @@ def generate(tier, rng):
       for nb in nbs:
         i += 1
         yield {'kind': 'padded', 'bs': bs, 'nb': nb, 'aff': list(AFFS[i % 3]), 'ds': [[0, 0, s] for s in sizes],
-               'it': i % 2, 'kw': (i // 2) % 2}
+               'it': i % 2, 'kw': (i // 2) % 3}
   # -- longer random sequences, larger batch sizes
   for _ in range(nrand):
     bs = rng.choice([1, 2, 3, 4, 5, 7, 8, 16])
@@ -112,7 +112,7 @@ def generate(tier, rng):
     sizes = [rng.choice([0, 0, rng.randrange(0, bs + 1), bs, rng.randrange(bs, 3 * bs + 2), bs * rng.randrange(1, 4),
                          bs - 1 if bs > 1 else 0]) for _ in range(ln)]
     yield {'kind': 'padded', 'bs': bs, 'nb': rng.randrange(1, 6), 'aff': list(rng.choice(AFFS)),
-           'ds': [[0, 0, s] for s in sizes], 'it': rng.randrange(2), 'kw': rng.randrange(2)}
+           'ds': [[0, 0, s] for s in sizes], 'it': rng.randrange(2), 'kw': rng.randrange(3)}
   # -- malformed stream: one dataset with another preprocessor object / feature set
   for _ in range(nmis):
     bs = rng.choice([1, 2, 3, 4])
@@ -272,7 +272,11 @@ def _run_padded(case, datasets):
       return [np.asarray(b['x']).tolist(), []]
     feat_ok[0] &= _v_follows(b, case['aff'], b[M])
     return [np.asarray(b['x']).tolist(), [bool(t) for t in np.asarray(b[M]).tolist()]]
-  if case.get('kw'):
+  if case.get('kw') == 2:    # keyword arguments override an existing hparams object
+    gen = fedjax.padded_batch_client_datasets(
+        datasets, fedjax.PaddedBatchHParams(batch_size=bs + 3, num_batch_size_buckets=nb + 1), batch_size=bs,
+        num_batch_size_buckets=nb)
+  elif case.get('kw'):
     gen = fedjax.padded_batch_client_datasets(datasets, batch_size=bs, num_batch_size_buckets=nb)
   else:
     gen = fedjax.padded_batch_client_datasets(datasets, fedjax.PaddedBatchHParams(batch_size=bs, num_batch_size_buckets=nb))
